@@ -8,6 +8,7 @@ use std::path::{Path, PathBuf};
 use quote::ToTokens;
 use syn::visit::Visit;
 
+mod attrs;
 mod front;
 mod subpat;
 
@@ -71,6 +72,9 @@ fn cmd_defs(out: &Path, files: &[PathBuf]) {
             writeln!(capf, "id {id}").unwrap();
             writeln!(capf, "file {}", f.display()).unwrap();
             writeln!(capf, "source {}", hex(src.as_bytes())).unwrap();
+            for (i, a) in attrs::scan_enum(e).iter().enumerate() {
+                writeln!(capf, "attr {i} {a}").unwrap();
+            }
             match res {
                 Ok((gen, cap)) => {
                     writeln!(capf, "panic 0").unwrap();
@@ -120,6 +124,7 @@ fn main() {
             };
             subpat::cmd_subpats(&out, &files);
         }
+        Some("refdfa") => subpat::cmd_refdfa(&PathBuf::from(&args[2]), &PathBuf::from(&args[3])),
         Some("front") => front::main(&args[2..]),
         _ => {
             eprintln!("usage: verif-capture defs <outdir> <files...> | front ...");
